@@ -1,5 +1,8 @@
 """C09 — cached_tasks reconstructs every cached task faithfully.
 
+(Enum parameters include members of classes nested in holder classes - dotted qualified names, paramgen.ENUM_TYPES; the
+repaired defect D26 is replayed by `d26_regression` on every run.)
+
 Stores: real LocalStorage directories filled through the real caches (`PickleCache`, a second BaseCache
 format `JsonCache`, `NullCache`) with generated tasks of 10 types (same-named types of two modules, the
 prefix pair Exp/Experiment), plus entries written for a type by a cache format that is not the type's own.
@@ -89,7 +92,7 @@ def ctasks_line(keys_sorted, by_key, request, extra_types=None):
     for (m, q) in sorted(all_types):
         null, prefix, cname = pr.cache_parts(pg.cls_of(m, q))
         tcs.append(':'.join([pg.hx(m), pg.hx(q), pg.hx(cname), pg.hx(prefix), '1' if null else '0', ','.join(pg.hx(f) for f in all_types[(m, q)])]))
-    ecs = [':'.join([pg.hx(m), pg.hx(q), ','.join(pg.hx(x) for x in ms)]) for (m, q), ms in sorted(pg.ENUM_TYPES.items())]
+    ecs = [':'.join([pg.hx(x) for x in pg.model_ref(m, q)] + [','.join(pg.hx(x) for x in ms)]) for (m, q), ms in sorted(pg.ENUM_TYPES.items())]
     words = ['CTASKS', str(len(tcs))] + tcs + [str(len(ecs))] + ecs + [str(len(request))] + [pg.hx(m) + ':' + pg.hx(q) for m, q in request]
     words.append(str(len(keys_sorted)))
     for k in keys_sorted:
@@ -478,6 +481,47 @@ def f07_probe():
         shutil.rmtree(d, ignore_errors=True)
 
 
+def d26_regression():
+    """corpus-style regression for the repaired defect D26 (labtech 8be0759): a cached task with a parameter that is a
+    member of an Enum class NESTED in another class (qualified name with a dot; one and two levels deep, an int-mixin
+    one, directly / inside a list / a dict / a nested task) comes back from cached_tasks exactly once, equal, with the
+    same cache_key; same-named enum classes of different holders stay different.  Returns a list of findings (empty =
+    repaired)."""
+    import labtech
+    import ptasks
+    import ptasks2
+    from labtech.types import ResultMeta, TaskResult
+    d = tempfile.mkdtemp(prefix='verif-c09-d26-')
+    try:
+        lab = labtech.Lab(storage=d, runner_backend='serial')
+        tasks = [ptasks.Exp(p=ptasks.ModelA.Variant.SMALL), ptasks.Exp(p=ptasks.ModelB.Variant.SMALL), ptasks.Exp(p=ptasks.Variant.SMALL),
+                 ptasks.Exp(p=ptasks2.ModelA.Variant.SMALL), ptasks.Exp(p=ptasks.Outer.Inner.Kind.OTHER),
+                 ptasks.AltT(p=[ptasks.ModelA.Level.HIGH, {'k': ptasks.ModelB.Variant.LARGE}]),
+                 ptasks.Box(a=ptasks.Leaf(x=ptasks.ModelA.Variant.LARGE), b={'m': (ptasks.Outer.Inner.Kind.SMALL,)})]
+        if len({t.cache_key for t in tasks}) != len(tasks):
+            return ['tasks whose parameters are members of different nested enum classes share a cache key']
+        for i, t in enumerate(tasks):
+            type(t)._lt.cache.save(lab._storage, t, TaskResult(value=i, meta=ResultMeta(start=datetime(2024, 1, 1), duration=timedelta(seconds=1))))
+        try:
+            got = lab.cached_tasks([ptasks.Exp, ptasks.AltT, ptasks.Box, ptasks.Leaf])
+        except BaseException as e:
+            return [f'cached_tasks raised {type(e).__name__}: {e}'[:160] + ' for stored tasks with nested-class Enum parameters']
+        out = []
+        want = sorted((t.cache_key, pg.show(t)) for t in tasks)
+        have = sorted((u.cache_key, pg.show(u)) for u in got)
+        if have != want:
+            out.append(f'cached_tasks over tasks with nested-class Enum parameters returned {len(got)} tasks; {len([x for x in want if x not in have])} of the {len(want)} stored ones are missing or rebuilt differently')
+        for u in got:
+            if not any(u == t and hash(u) == hash(t) for t in tasks):
+                out.append('a task rebuilt from an entry with a nested-class Enum parameter is not equal to the stored task')
+                break
+        return out
+    except BaseException as e:
+        return [f'storing tasks with nested-class Enum parameters raised {type(e).__name__}: {e}'[:200]]
+    finally:
+        shutil.rmtree(d, ignore_errors=True)
+
+
 def f07c_probe():
     """C09 on the input class of known finding F07c (a str parameter that spells an astral character as two
     surrogate code points): reported, see run()"""
@@ -511,6 +555,10 @@ def run(ctx):
             v, d, _ = run_overwrite(rp['case'])
             return dict(evaluations=1, distinct_nontrivial=0, rule=RULE, samples=[], violations=v, disagreements=d,
                         distribution={}, assumptions=[], explanation='replay of one failed-overwrite store')
+        if rp.get('kind') == 'corpus-D26':
+            v = [dict(what='D26 reproduction: ' + w, replay=dict(kind='corpus-D26')) for w in d26_regression()]
+            return dict(evaluations=1, distinct_nontrivial=0, rule=RULE, samples=[], violations=v, disagreements=[],
+                        distribution={}, assumptions=[], explanation='replay of the D26 regression (nested-class Enum parameters)')
         if rp.get('kind') == 'reload':
             v, infra = reload_scenario(0)
             if infra:
@@ -526,6 +574,10 @@ def run(ctx):
             return dict(infra_error='repro D6: ' + str(rec['detail']))
         if rec['violated']:
             viol.append(dict(what='D6 reproduction: ' + str(rec['detail']), replay=dict(kind='corpus', id='D6')))
+    d26 = d26_regression()
+    dist['corpus_D26_violated'] = int(bool(d26))
+    for w in d26:
+        viol.append(dict(what='D26 reproduction: ' + w, replay=dict(kind='corpus-D26')))
     probe = f07_probe()
     dist['f07_input_class_probe: ' + probe] = 1
     known_here = any(k.get('property') == 'C09' and k.get('match') == pr.KNOWN_F07
